@@ -2,6 +2,7 @@ package main
 
 import (
 	"fmt"
+	"github.com/XiXi-2024/xixi-kv/verifrt/vmmap"
 	"os"
 	"path/filepath"
 	"strconv"
@@ -78,7 +79,10 @@ func debugTrace(cfg Cfg, trace string) {
 		fmt.Printf("    io#%d %s %s %s off=%d n=%d %s\n", ev.Seq, ev.Op, filepath.Base(ev.Path), filepath.Base(ev.Path2), ev.Off, ev.N, ev.Err)
 	}
 	w := NewWorld(cfg, keysABC)
-	defer w.Destroy()
+	defer func() {
+		w.Destroy()
+		fmt.Printf("mappings left behind after Close: %d\n", vmmap.ReleaseAll())
+	}()
 	fmt.Println("open:", w.Open())
 	for i, op := range ops {
 		t0 := time.Now()
